@@ -42,9 +42,27 @@ def climbs_above_root(here_path, p):
 def check_tree(schema, rng, n_paths):
     fails = []
     root = Store(schema)
+    # graft a detached subtree below the root with add_node (the primitive behind _move), under a path of 1..3 segments:
+    # afterwards the parent pointers must describe the place where the subtree really sits
+    if rng.random() < 0.5:
+        graft = Store(gen_schema(rng, 2) or {'g': {'_default': 1}})
+        gp = tuple(rng.sample(['m1', 'm2', 'm3'], rng.choice([1, 2, 3])))
+        try:
+            root.add_node(gp, graft)
+        except Exception as e:
+            fails.append('add_node(%s) raised %s: %s' % (gp, type(e).__name__, str(e)[:100]))
     ns = nodes(root)
     for n in ns:
-        if root.get_path(n.path_for()) is not n:
+        for k, ch in n.inner.items():
+            if ch.outer is not n:
+                fails.append('child %s of %s has outer %s' % (k, n.path_for(), ch.outer.path_for() if ch.outer else None))
+    for n in ns:
+        try:
+            back = root.get_path(n.path_for())
+        except Exception as e:
+            fails.append('root.get_path(n.path_for()) raised for path_for() == %s: %s' % (n.path_for(), str(e)[:80]))
+            return fails, len(ns), 0
+        if back is not n:
             fails.append('root.get_path(n.path_for()) is not n for n at %s' % (n.path_for(),))
         if n.top() is not root:
             fails.append('top() of %s is not the root' % (n.path_for(),))
